@@ -346,6 +346,37 @@ def w_h_external(L, d, rec):
     rec("Hclose", L.Hclose(fid), FAIL)
 
 
+def w_h_external_more(L, d, rec):
+    """an external element that the workload keeps using whatever the calls report: several writes, a seek, a read,
+    a write in the middle; then a second session on the stored element"""
+    fid = rec("Hopen", L.Hopen(_p(d), DFACC_CREATE, 0), FAIL)
+    if fid == FAIL:
+        return
+    aid = rec("HXcreate", L.HXcreate(fid, 2002, 1, b"extm.dat", 7, 0), FAIL)
+    if aid != FAIL:
+        rec("Hwrite", L.Hwrite(aid, 9, b"123456789"), FAIL)
+        rec("Hwrite", L.Hwrite(aid, 9, b"abcdefghi"), FAIL)
+        rec("Hseek", L.Hseek(aid, 3, 0), FAIL)
+        b = CBuf(4)
+        rec("Hread", L.Hread(aid, 4, b.ptr), FAIL)
+        b.free()
+        rec("Hwrite", L.Hwrite(aid, 5, b"VWXYZ"), FAIL)
+        rec("Hendaccess", L.Hendaccess(aid), FAIL)
+    rec("Hclose", L.Hclose(fid), FAIL)
+    fid = rec("Hopen", L.Hopen(_p(d), DFACC_RDWR, 0), FAIL)
+    if fid == FAIL:
+        return
+    aid = rec("Hstartwrite", L.Hstartwrite(fid, 2002, 1, 0), FAIL)
+    if aid != FAIL:
+        b = CBuf(6)
+        rec("Hread", L.Hread(aid, 6, b.ptr), FAIL)
+        b.free()
+        rec("Hwrite", L.Hwrite(aid, 4, b"mnop"), FAIL)
+        rec("Hwrite", L.Hwrite(aid, 4, b"qrst"), FAIL)
+        rec("Hendaccess", L.Hendaccess(aid), FAIL)
+    rec("Hclose", L.Hclose(fid), FAIL)
+
+
 C16_WORKLOADS = [
     ("h_create", None, w_h_create, True),
     ("h_linked_rw", None, w_h_linked_rw, True),
@@ -359,6 +390,7 @@ C16_WORKLOADS = [
     ("gr_create", None, w_gr_create, False),
     ("an_create", None, w_an_create, False),
     ("h_external", None, w_h_external, False),
+    ("h_external_more", None, w_h_external_more, False),
     ("new_sds_in_mixed", lambda L, d: prep_mixed(L, d, 16, 3), lambda L, d, rec: sess_new_sds(L, d, rec, None), False),
     ("new_image_in_mixed", lambda L, d: prep_mixed(L, d, 16, 3), lambda L, d, rec: sess_new_image(L, d, rec, None), False),
 ]
